@@ -24,8 +24,11 @@ func Point(string) {}
 // Trace records a named event with a value.
 func Trace(string, int) {}
 
-// WriteFault lets a write result pass through unchanged.
-func WriteFault(_ string, n int, err error) (int, error) { return n, err }
+// BeforeWrite returns the bytes to write unchanged and no fault.
+func BeforeWrite(_ string, p []byte) ([]byte, bool) { return p, false }
+
+// AfterWrite lets a write result pass through unchanged.
+func AfterWrite(_ bool, n int, err error) (int, error) { return n, err }
 
 // ErrFault lets an error result pass through unchanged.
 func ErrFault(_ string, err error) error { return err }
